@@ -191,7 +191,12 @@ def _nan_grouped_op(group_idx, array, func, fillna, *args, **kwargs):
     # (either np.inf or -np.inf), and replace with NaN
     # Our choice of fillna does the right thing for sum, prod
     if fillna in (np.inf, -np.inf):
-        allnangroups = result == fillna
+        # count the valid values instead of searching for the substitute:
+        # +-inf can be a legitimate extreme of a group
+        nvalid = nanlen(
+            group_idx, array, axis=kwargs.get("axis", -1), size=kwargs.get("size", None), fill_value=0
+        )
+        allnangroups = nvalid == 0
         if allnangroups.any():
             result[allnangroups] = kwargs["fill_value"]
     return result
